@@ -300,9 +300,7 @@ pub fn run(ctx: &Ctx) -> i32 {
         let seed = derive_seed(ctx.seed, ctx.id, shard, 0);
         let res = pt_search(seed, cases_per_shard, &strat, &stats, |case| {
             let tys = case.types();
-            if std::env::var("QV_C09_TRACE").is_ok() {
-                eprintln!("TRACE {:?} {}", std::thread::current().name(), serde_json::to_string(&tys.iter().map(ty_json).collect::<Vec<_>>()).unwrap());
-            }
+            crumb(ctx.id, || json!({"kind": "c09", "trees_json": tys.iter().map(ty_json).collect::<Vec<_>>()}));
             match check_types(&tys) {
                 Ok(f) => {
                     stats.evals(f.pairs as u64);
